@@ -4,6 +4,7 @@ package main
 import (
 	"fmt"
 	"os"
+	"runtime"
 	"strings"
 
 	"nvharness/lib/corr"
@@ -20,6 +21,8 @@ func main() {
 	case "extract":
 		extract(os.Args[2], os.Args[3])
 	case "corr":
+		// one P: a buffer put back into a sync.Pool is the one the next Get returns, on this or a second goroutine
+		runtime.GOMAXPROCS(1)
 		corr.Main(spec(), os.Args[2:])
 	default:
 		os.Exit(2)
@@ -43,11 +46,14 @@ func spec() corr.Spec {
 		Gen: func(r *rng.R, tier string, i int) corr.Case { return genCase(r, tier, i) },
 		Run: func(c corr.Case) corr.Result {
 			var res corr.Result
+			held = held[:0]
 			for _, l := range c.Lines {
 				o, hits := runLine(l)
 				res.Outs = append(res.Outs, o)
 				res.Hits = append(res.Hits, hits...)
 			}
+			// encoder results the script still holds must not have been changed by later encodes
+			res.Hits = append(res.Hits, checkHeld()...)
 			return res
 		},
 		NonTrivial: func(c corr.Case, r corr.Result) bool {
